@@ -156,6 +156,8 @@ func init() {
 				Bound: "every multiset of 9 edges over the 15 pairs of 6 nodes, lexicographic order (where the stale-cut-value defect first showed)"},
 			{Name: "G6n4", Space: spaceG(6, 6, 4, nil), Eval: stdEval("C10", staticGrid(gridSpec{P1: allP1, P2: []int{0}, P4: []int{1}, P5: []int{0}, SZ: []int{1}, TH: []int{28}}.list()), or),
 				Bound: "all edge lists with 6 edges on <=4 nodes (dense, cyclic multigraphs) x {greedy,dfs}"},
+			{Name: "macro-3", Space: spaceMacro(3, false), Eval: stdEval("C10", staticGrid(gridSpec{P1: allP1, P2: []int{0}, P4: []int{1}, P5: []int{0}, SZ: []int{1}, TH: []int{28}}.list()), or),
+				Bound: "every graph built by <=3 gadget insertions (path, fan-in/out, 3-/4-cycle, diamond, long-edge triangle; shapes with up to 13 edges)"},
 			{Name: "seeds", Space: spaceSeeded(seedWitnesses, tierPick(tier, 1, 2)), Eval: stdEval("C10", staticGrid(g), or),
 				Bound: "all states within 1 (thorough 2) edit operations of the recorded witnesses"},
 			{Name: "families", Space: spaceList(c10Families()), Eval: stdEval("C10", staticGrid(gd), or),
@@ -193,6 +195,8 @@ func init() {
 				Bound: "all cyclic edge lists with <=4 edges x greedy-random with every RNG answer sequence"},
 			{Name: "D(6,7)", Space: spaceD(6, 6, 7, false), Eval: stdEval("C11", staticGrid(gridSpec{P1: []int{0}, P2: []int{1}, P4: []int{1}, P5: []int{0}, SZ: []int{1}}.list()), or),
 				Bound: "every multiset of 6..7 edges over the 15 pairs of 6 nodes"},
+			{Name: "macro-3", Space: spaceMacro(3, false), Eval: stdEval("C11", staticGrid(g), or),
+				Bound: "every graph built by <=3 gadget insertions (path, fan-in/out, 3-/4-cycle, diamond, long-edge triangle; shapes with up to 13 edges)"},
 			{Name: "seeds", Space: spaceSeeded(seedWitnesses, tierPick(tier, 1, 2)), Eval: stdEval("C11", staticGrid(g), or),
 				Bound: "all states within 1 (thorough 2) edit operations of the recorded witnesses"},
 			{Name: "families", Space: spaceList(c10Families()), Eval: stdEval("C11", staticGrid(g), or),
@@ -286,6 +290,8 @@ func init() {
 				Bound: "all edge lists with <=4 (thorough 5) edges x greedy-random with every RNG answer sequence"},
 			{Name: "G-deep-n4", Space: spaceG(d+1, tierPick(tier, d+1, d+2), 4, nil), Eval: stdEval("C14", staticGrid(g), or),
 				Bound: fmt.Sprintf("all edge lists with %d..%d edges on <=4 nodes x {dfs,greedy}", d+1, tierPick(tier, d+1, d+2))},
+			{Name: "macro-3", Space: spaceMacro(3, false), Eval: stdEval("C14", staticGrid(g), or),
+				Bound: "every graph built by <=3 gadget insertions (path, fan-in/out, 3-/4-cycle, diamond, long-edge triangle; shapes with up to 13 edges)"},
 			{Name: "seeds", Space: spaceSeeded(seedWitnesses, tierPick(tier, 1, 2)), Eval: stdEval("C14", staticGrid(gridSpec{P1: []int{1, 0}, P2: allP2, P4: []int{1}, P5: []int{1}, SZ: []int{1}}.list()), or),
 				Bound: "all states within 1 (thorough 2) edit operations of the recorded witnesses"},
 		}
